@@ -50,7 +50,44 @@ type Case struct {
 	ShardVals []int        `json:"shard_vals,omitempty"` // non-empty: Shard(arg) = shardCatalogue[ShardVals[arg % len]], values of
 	// different Go types that print alike; the model's shard number is the catalogue index (distinct entries are
 	// distinct Go values)
+	ArgOf []int `json:"arg_of,omitempty"` // non-empty: caller i passes the argument value number ArgOf[i % len] (equal
+	// numbers = equal arguments; numbers >= 100 are values of uncomparable types); empty: caller i passes the int i
 	Origin string `json:"origin,omitempty"`
+}
+
+// argument values.  Value number v < 100 is the int v; 100..199 a []string; 200.. a map[string]int (both cannot be
+// compared with ==).  Equal numbers give equal (deeply equal, freshly built) values.
+func mkArg(v int) interface{} {
+	switch {
+	case v >= 200:
+		return map[string]int{"k": v, "x": 1}
+	case v >= 100:
+		return []string{"s", fmt.Sprint(v)}
+	}
+	return v
+}
+
+func vidOf(a interface{}) int {
+	switch x := a.(type) {
+	case int:
+		return x
+	case []string:
+		if len(x) == 2 {
+			n := 0
+			fmt.Sscan(x[1], &n)
+			return n
+		}
+	case map[string]int:
+		return x["k"]
+	}
+	return -1
+}
+
+func (c *Case) argOf(i int) int {
+	if len(c.ArgOf) == 0 {
+		return i
+	}
+	return c.ArgOf[i%len(c.ArgOf)]
 }
 
 func fOf(arg int) int { return arg*31 + 7 }
@@ -182,13 +219,13 @@ func runCase(c *Case) (*exec, bool) {
 			MaxDuration:  time.Duration(c.MaxDurUs) * time.Microsecond,
 		}
 		if !c.NilShard {
-			f.Shard = func(arg interface{}) interface{} { return c.shardVal(arg.(int)) }
+			f.Shard = func(arg interface{}) interface{} { return c.shardVal(vidOf(arg)) }
 		}
 		f.Many = func(ctx context.Context, args []interface{}) ([]interface{}, error) {
 			k := int(atomic.AddInt32(&e.nMany, 1)) - 1
 			ints := make([]int, len(args))
 			for i, a := range args {
-				ints[i], _ = a.(int)
+				ints[i] = vidOf(a)
 			}
 			out := "ok"
 			if len(c.Outcomes) > 0 {
@@ -248,7 +285,7 @@ func runCase(c *Case) (*exec, bool) {
 					}
 				}()
 				e.free.Handler("h.invoke", i)
-				v, err := fs[c.funcOf(i)].Invoke(ctx, i)
+				v, err := fs[c.funcOf(i)].Invoke(ctx, mkArg(c.argOf(i)))
 				r.val, r.kind = v, errKind(err)
 			}()
 			r.returned = true
@@ -328,24 +365,36 @@ func oracle(e *exec, all bool) []failure {
 	add := func(sig, d string, a ...interface{}) { fs = append(fs, failure{sig, fmt.Sprintf(d, a...)}) }
 	e.mu.Lock()
 	defer e.mu.Unlock()
-	seenBy := map[int][]*manyCall{}
+	type fv struct{ fid, vid int }
+	asked := map[fv]int{}    // callers that passed this value to this Func
+	askedCtx := map[fv]int{} // ... of which got the context error
+	for i := 0; i < c.Callers; i++ {
+		k := fv{c.funcOf(i), c.argOf(i)}
+		asked[k]++
+		if e.res[i].returned && e.res[i].kind == "ctx" {
+			askedCtx[k]++
+		}
+	}
+	seen := map[fv]int{} // occurrences of the value in all calls of the Func's Many
+	sawIn := map[fv][]*manyCall{}
 	for _, mc := range e.many {
 		sh := map[int]bool{}
 		for _, a := range mc.args {
-			seenBy[a] = append(seenBy[a], mc)
+			k := fv{mc.fid, a}
+			seen[k]++
+			sawIn[k] = append(sawIn[k], mc)
 			sh[c.shardOf(a)] = true
-			if a < 0 || a >= c.Callers {
-				add("many-saw-unknown-argument", "call %d of Many saw %d", mc.k, a)
+			if asked[k] == 0 {
+				other := fv{1 - mc.fid, a}
+				if asked[other] > 0 {
+					add("batch-mixes-funcs", "call %d of Func %d's Many saw argument value %d, which was only passed to Func %d's Invoke (args %v)", mc.k, mc.fid, a, 1-mc.fid, mc.args)
+				} else {
+					add("many-saw-unknown-argument", "call %d of Many saw value %d", mc.k, a)
+				}
 			}
 		}
 		if len(sh) > 1 {
 			add("batch-mixes-shards", "call %d of Many saw args %v", mc.k, mc.args)
-		}
-		for _, a := range mc.args {
-			if a >= 0 && a < c.Callers && c.funcOf(a) != mc.fid {
-				add("batch-mixes-funcs", "call %d of Func %d's Many saw argument %d, which was passed to Func %d's Invoke (args %v)", mc.k, mc.fid, a, c.funcOf(a), mc.args)
-				break
-			}
 		}
 		if ms := c.maxSizeOf(mc.fid); ms > 0 && len(mc.args) > ms {
 			add("batch-exceeds-maxsize", "call %d of Many saw %d args, MaxSize %d", mc.k, len(mc.args), ms)
@@ -354,45 +403,56 @@ func oracle(e *exec, all bool) []failure {
 			add("many-called-with-no-arguments", "call %d", mc.k)
 		}
 	}
+	// every call's argument is handed to Many exactly once as its own slot: count occurrences per value
+	for k, n := range asked {
+		need := n - askedCtx[k]
+		switch {
+		case !all:
+			// some caller never returned: reported below
+		case seen[k] > n:
+			add("argument-fetched-twice", "value %d was passed to Func %d's Invoke %d times but occurs %d times in the calls of Many", k.vid, k.fid, n, seen[k])
+		case seen[k] > need:
+			add("cancelled-but-fetched", "value %d (Func %d): %d Invoke calls, %d of them returned the context error, yet Many saw it %d times", k.vid, k.fid, n, askedCtx[k], seen[k])
+		case seen[k] < need:
+			add("argument-never-fetched", "value %d was passed to Func %d's Invoke %d times (%d got the context error) but occurs only %d times in the calls of Many: some call's argument was never handed to Many as its own slot", k.vid, k.fid, n, askedCtx[k], seen[k])
+		}
+	}
 	anyCancel := false
 	for _, f := range e.fired {
 		anyCancel = anyCancel || f
 	}
 	for i := 0; i < c.Callers; i++ {
 		r := e.res[i]
-		calls := seenBy[i]
-		if len(calls) > 1 {
-			add("argument-fetched-twice", "argument %d was passed to Many %d times", i, len(calls))
-		}
+		k := fv{c.funcOf(i), c.argOf(i)}
 		if !r.returned {
 			add("caller-never-returns", "Invoke(%d) had not returned after 4 s (all=%v)", i, all)
 			continue
 		}
 		switch {
 		case strings.HasPrefix(r.kind, "invoke-panic"):
-			add("invoke-panics", "Invoke(%d): %s", i, r.kind)
+			add("invoke-panics", "Invoke(%d) with argument value %d: %s", i, k.vid, r.kind)
 		case strings.HasPrefix(r.kind, "other"):
 			add("unexpected-error", "Invoke(%d): %s", i, r.kind)
 		case r.kind == "ctx":
-			if len(calls) != 0 {
-				add("cancelled-but-fetched", "Invoke(%d) returned the context error although Many saw its argument", i)
-			}
 			if stale, who := e.staleCancel(i); stale {
 				add("context-error-from-finished-cancelled-batch", "Invoke(%d) started after every cancelled caller (%v) had returned, its own context is live, yet it got the context error and its argument was never fetched", i, who)
 			}
 			if !anyCancel {
 				add("context-error-without-cancellation", "Invoke(%d)", i)
 			}
-		case len(calls) == 0:
-			add("argument-never-fetched", "Invoke(%d) returned (%v,%q) but Many never saw the argument", i, r.val, r.kind)
+		case len(sawIn[k]) == 0:
+			// counted above as argument-never-fetched
 		default:
-			mc := calls[0]
-			want := map[string]string{"ok": "", "slow": "", "err": "user", "panic": "panic", "short": "wronglen", "long": "wronglen"}[mc.outcome]
-			if r.kind != want {
-				add("wrong-error-kind", "Invoke(%d) got error kind %q, its batch (call %d of Many, outcome %s) gives %q", i, r.kind, mc.k, mc.outcome, want)
-			} else if want == "" {
-				if v, ok := r.val.(int); !ok || v != fOf(i) {
-					add("wrong-result", "Invoke(%d) returned %v, f(%d) = %d (batch args %v)", i, r.val, i, fOf(i), mc.args)
+			// the caller belongs to one of the batches that saw its value
+			wants := map[string]bool{}
+			for _, mc := range sawIn[k] {
+				wants[map[string]string{"ok": "", "slow": "", "err": "user", "panic": "panic", "short": "wronglen", "long": "wronglen"}[mc.outcome]] = true
+			}
+			if !wants[r.kind] {
+				add("wrong-error-kind", "Invoke(%d) got error kind %q, the batches that saw its argument give %v", i, r.kind, wants)
+			} else if r.kind == "" {
+				if v, ok := r.val.(int); !ok || v != fOf(k.vid) {
+					add("wrong-result", "Invoke(%d) with argument value %d returned %v, f = %d", i, k.vid, r.val, fOf(k.vid))
 				}
 			}
 		}
@@ -493,16 +553,17 @@ func emit(e *exec) ([]string, emitStats) {
 		case "batch.maxsize":
 			st.rollovers++
 		case "batch.join":
-			arg, _ := a[1].(int)
+			who := ev.G // the hook runs on the calling goroutine, which is registered under the caller's number
+			vid := vidOf(a[1])
 			index, _ := a[2].(int)
 			existed, _ := a[3].(bool)
 			if !existed {
 				gids[a[0]] = len(gids)
-				creatorGroup[arg] = gids[a[0]]
+				creatorGroup[who] = gids[a[0]]
 				st.groups++
 			}
 			g := gid(a[0])
-			cid[arg] = len(cid)
+			cid[who] = len(cid)
 			size[g]++
 			if size[g] > st.maxGroup {
 				st.maxGroup = size[g]
@@ -510,7 +571,7 @@ func emit(e *exec) ([]string, emitStats) {
 			if woken[g] && !unpub[g] {
 				st.joinsAfterWake++
 			}
-			evs = append(evs, fmt.Sprintf("(LJoin %d %d %d %v, ObJoin %d %d %v %v)", c.funcOf(arg), arg, c.shardOf(arg), !existed && cancelled[arg], g, index, existed, closedNow))
+			evs = append(evs, fmt.Sprintf("(LJoin %d %d %d %v, ObJoin %d %d %v %v)", c.funcOf(who), vid, c.shardOf(vid), !existed && cancelled[who], g, index, existed, closedNow))
 		case "batch.wake":
 			g := gid(a[0])
 			cause := map[string]string{"interval": "CInterval", "maxduration": "CMaxDur", "ctxdone": "CCtxDone", "maxsize": "CMaxSize"}[a[1].(string)]
@@ -642,6 +703,20 @@ func genCase(r *vh.Rng) *Case {
 	if r.Chance(15) {
 		c.Limit = 1 + r.Intn(4)
 	}
+	if r.Chance(35) {
+		// argument values shared between callers (resolvers ask for the same key many times) and values of
+		// uncomparable types (slices, maps)
+		pool := []int{7, 7, 8, 3}
+		switch r.Intn(3) {
+		case 0:
+			pool = []int{100, 101, 100, 200, 5}
+		case 1:
+			pool = []int{r.Intn(4), r.Intn(4), 100 + r.Intn(2), 200, r.Intn(4)}
+		}
+		for k := 2 + r.Intn(6); k > 0; k-- {
+			c.ArgOf = append(c.ArgOf, pool[r.Intn(len(pool))])
+		}
+	}
 	if r.Chance(25) && !c.NilShard {
 		// shard values of different Go types (and structs) that print alike: they are different map keys
 		n := 2 + r.Intn(3)
@@ -720,6 +795,10 @@ func genScript(r *vh.Rng) *Case {
 		if r.Chance(50) {
 			c.Holds = []sched.Hold{{Point: "batch.wake", Nth: 0, UntilPoint: "batch.join", UntilCount: c.Callers, TimeoutUs: 1500}}
 		}
+		if r.Chance(50) {
+			// the roll-over counts calls, not distinct arguments
+			c.ArgOf = []int{7, 7, 8}
+		}
 	}
 	if r.Chance(30) {
 		c.Cancels = []Cancel{{Caller: 0, Point: r.Pick(cancelPoints), Nth: 1}}
@@ -743,7 +822,7 @@ func variant(r *vh.Rng, seed *Case) *Case {
 	c.Origin = "search"
 	c.SchedSeed = r.U64() >> 1
 	for k := 1 + r.Intn(3); k > 0; k-- {
-		switch r.Intn(10) {
+		switch r.Intn(11) {
 		case 0: // another hold point / count
 			if len(c.Holds) > 0 {
 				h := &c.Holds[r.Intn(len(c.Holds))]
@@ -807,6 +886,8 @@ func variant(r *vh.Rng, seed *Case) *Case {
 			if len(c.Outcomes) > 1 {
 				c.Outcomes = append(c.Outcomes[1:], c.Outcomes[0])
 			}
+		case 9: // equal / uncomparable arguments
+			c.ArgOf = [][]int{{7, 7, 8}, {100, 100, 200}, {1, 100, 1, 200}}[r.Intn(3)]
 		case 8: // shard values that print alike
 			if !c.NilShard {
 				c.ShardVals = []int{r.Intn(len(shardCatalogue)), r.Intn(len(shardCatalogue)), r.Intn(len(shardCatalogue))}
@@ -923,6 +1004,9 @@ func main() {
 		run.Hist(fmt.Sprintf("funcs:%d", maxi(1, c.Funcs)))
 		if len(c.ShardVals) > 0 {
 			run.Hist("shards:typed-values-that-print-alike")
+		}
+		if len(c.ArgOf) > 0 {
+			run.Hist("args:equal-between-callers-or-uncomparable")
 		}
 		run.Hist(fmt.Sprintf("callers:%d0s", c.Callers/10))
 		run.Hist(fmt.Sprintf("groups:%d", mini(st.groups, 12)))
